@@ -68,7 +68,8 @@ pub fn compile(model: &MNode, dump: &Dump, infosets: &[Vec<(&String, &[String])>
             MNode::C { outs, .. } if outs.len() == 1 => walk(&outs[0].2, d, names, actions, cp),
             MNode::P { acts, .. } if acts.len() == 1 => walk(&acts[0].1, d, names, actions, cp),
             MNode::T(x) => match d {
-                DumpNode::Terminal(y) if x.to_bits() == y.to_bits() => Ok(RN::T(*x)),
+                // the Gambit route computes its payoffs with a few more roundings than the model
+                DumpNode::Terminal(y) if x.to_bits() == y.to_bits() || (x - y).abs() <= 1e-9 * (1.0 + x.abs()) => Ok(RN::T(*x)),
                 _ => Err(format!("model terminal {x} vs library {d:?}")),
             },
             MNode::C { outs, .. } => match d {
